@@ -45,6 +45,9 @@ MUTANTS = [
     ('metrics.historySize = 0', [(['metrics', 'historySize'], 0)]),
     ('metrics.historySize = -1', [(['metrics', 'historySize'], -1)]),
     ('metrics.bind = garbage', [(['metrics', 'bind'], 'notanaddress')]),
+    ('metrics.bind = address of a listener', [(['metrics', 'bind'], 'LISTENER0')]),
+    ('metrics.bind = address that is not local', [(['metrics', 'bind'], '192.0.2.1:18918')]),
+    ('listener bind = address that is not local', [(['listeners', 1, 'bind'], '192.0.2.1:18919')]),
     ('timeouts.idle = -1', [(['timeouts'], {'idle': -1})]),
     ('timeouts.idle = string', [(['timeouts'], {'idle': 'x'})]),
     ('timeouts = {}', [(['timeouts'], {})]),
@@ -147,7 +150,7 @@ def one(m):
     name, edits = m
     cfg, hp, sp, ap = base()
     for path, val in edits:
-        if val == 'SAME':
+        if val == 'SAME' or val == 'LISTENER0':
             val = cfg['listeners'][0]['bind']
         setp(cfg, path, val)
     px = Proxy(cfg, 'c18')
@@ -156,6 +159,12 @@ def one(m):
     res = {'name': name}
     try:
         rc, out = px.test_mode()
+        if rc == 0 and 'accessLog' in json.dumps(cfg):
+            # the exit path of a run with an access log had a rare crash: look more than once
+            for _ in range(11):
+                rc, out = px.test_mode()
+                if rc != 0:
+                    break
         res['test_rc'] = rc
         if rc not in (0, 1):
             return dict(res, verdict=('config.test', f'crash-in-test-mode', f'{name}: `--test` ended with {rc}: {out[-300:]}'))
